@@ -114,6 +114,17 @@ def replay(path):
     if "next 1" in (txt.splitlines()[0] if txt else "") or NEXT_TARGET:
         env["C08_NEXT_TARGET"] = "1"
     env.pop("VF_OUT", None)
+    first = txt.splitlines()[0] if txt else ""
+    if first.startswith("C08-search"):      # re-run a bounded generator search instead of one exact schedule
+        w = first.split()
+        kv = dict(zip(w[1::2], w[2::2]))
+        rd = core.run_dir(PROP)
+        env["VF_OUT"] = os.path.join(rd, "search.json")
+        env["RC_PARAMS"] = "seed=%s max_success=%s max_size=100" % (kv.get("seed", "1"), kv.get("cases", "400"))
+        p = subprocess.run([b, "rc", kv["mod"], kv.get("n", "3")], env=env, stdout=subprocess.PIPE, stderr=subprocess.STDOUT, text=True, errors="replace")
+        msg = open(env["VF_OUT"] + ".failmsg").read().strip() if os.path.exists(env["VF_OUT"] + ".failmsg") else ""
+        core.cleanup_run_dir(PROP)
+        return p.returncode == 0, (msg or p.stdout[-800:])[:2000]
     p = subprocess.run([b, "replay", path], env=env, stdout=subprocess.PIPE, stderr=subprocess.STDOUT, text=True, errors="replace")
     out = p.stdout
     ok = p.returncode == 0 and "REPLAY-PASS" in out
